@@ -278,8 +278,8 @@ theorem setValue_mem_other {l : List (Bytes × Bytes)} {k k' v v' : Bytes} (hne 
 theorem writeAuthorizeError_form (cfg : Cfg) (ar : AuthReq) (err : GoErr) (hv : ar.redirValid = true)
     (m : ar.mode = mFormPost) :
     writeAuthorizeError cfg ar err =
-      { status := 200, headers := setHeader (setCache []) hCT ctHTML, bodyKind := .html, target := ar.redirBase,
-        fields := strFields .query ar.redirQuery
+      { status := 200, headers := setHeader (setCache []) hCT ctHTML, bodyKind := .html, target := formTarget ar,
+        fields := strFields .query (formQuery ar)
                   ++ strFields .form (setValue (toValues (configured cfg err)) kState ar.state) } := by
   unfold writeAuthorizeError
   simp only
